@@ -83,6 +83,9 @@ impl<'s> FamVisitor for Runner<'s> {
                 None => continue,
             };
             layout.push(stream.len(), p.len());
+            if p.len() >= 65536 {
+                self.obs.borrow_mut().probe(pb::large_frame_ge_64k);
+            }
             stream.extend_from_slice(&frame(&p));
             payloads.push(p);
         }
@@ -779,6 +782,10 @@ impl Property for P15 {
             return S15::Pipe(crate::pipe::PipeSc::generate(r));
         }
         S15::Single(generate_single(r, tier))
+    }
+
+    fn probes() -> Vec<usize> {
+        vec![pb::cancel_with_3_of_4_prefix_bytes, pb::cancel_mid_prefix, pb::cancel_mid_payload, pb::eof_inside_prefix, pb::eof_inside_payload, pb::transient_err_mid_prefix, pb::transient_err_mid_payload, pb::frame_len_eq_max_len, pb::prefix_split_across_reads, pb::payload_split_across_reads, pb::double_cancel_same_frame, pb::clean_end_repeated, pb::large_frame_ge_64k, pb::pipe_both_blocked_resolved, pb::pipe_reader_cancel, pb::rewrap_at_boundary, pb::max_len_changed_mid_run]
     }
 
     fn rule() -> &'static str {
